@@ -2,6 +2,7 @@
 
 R19.1 attribute protocol: everything a condition reads from the model exists on PrecipitateModel / PrecipitationData
 R19.2 latch: a satisfied condition is never re-evaluated or un-satisfied; the crossing time is written with the transition only
+R19.7 the interpolated crossing time is stored only when the condition was not met at the previous step (otherwise the time of that step)
 R19.3 fold: every registered condition is tested on every step; or-/and-accumulators; an empty and-set never stops the run
 R19.4 each condition reads the history of its name, with the selection (phase / element) it was given; inequality table
 R19.5 the solver honours the stop flag (C05 R5.2)
@@ -172,6 +173,30 @@ def r192(repo, ctx, index):
     st = [s_ for s_ in st if any(isinstance(c, ast.BinOp) for c in flows(s_.value))] or st
     ctx.check(ok, 'R19.2', SC, f'{BASECLS}.testCondition', st[0] if st else f, 'crossing time = linear interpolation between the previous and the current step',
               'the reported crossing time is not the linear interpolation between the previous and the current step', construct=U.src(st[0]) if st else '')
+    # R19.7: the interpolation is only an interpolation when the threshold lies between the two values: on every path that stores
+    # the interpolated time, the condition was tested at the previous step and found not met (otherwise the formula extrapolates
+    # outside the step - a condition already true at the initial state, or registered mid-run)
+    n_interp, unguarded = 0, []
+    for o in outs:
+        v = o.fields.get('_satisfiedTime')
+        if '_satisfiedTime' not in o.written or not (isinstance(v, tuple) and v and v[0] == 'op'):
+            continue
+        n_interp += 1
+        guarded = False
+        for tv, text in o.conds:
+            t_ = text.replace(' ', '')
+            neg = False
+            while t_.startswith('not'):
+                t_, neg = t_[3:].strip('()'), not neg
+            prev_test = '_testCondition(' in t_ and ('n-1' in t_ or '-1)' in t_)
+            if prev_test and ((tv == 'F') != neg):
+                guarded = True
+        if not guarded:
+            unguarded.append(o)
+    ctx.check(n_interp > 0 and not unguarded, 'R19.7', SC, f'{BASECLS}.testCondition', st[0] if st else f,
+              f'on all {n_interp} path(s) that store the interpolated time the condition was tested at the previous step and was not met there: the threshold lies between the two values',
+              'the interpolated time is stored without testing that the condition was not yet met at the previous step: when it already was (true at the initial state, registered mid-run) '
+              'the formula extrapolates and the reported time falls outside the step', construct='testCondition: interpolation guarded by the previous step')
 
 
 def _registry_mentions(node):
